@@ -179,6 +179,9 @@ PROPS = {
         assumptions=NODE_ASSUME,
         streams=[
             S("node", ["--cases", 150, "--keys", 3], ["--cases", 8000, "--keys", 3, "--ops", 150]),
+            # what a peer "announced" is decided per message by process_message: of two contradicting
+            # presences for one CID in one message the later one counts
+            S("procmsg", ["--cases", 200], ["--cases", 20000]),
         ],
     ),
     "C06": dict(
